@@ -11,7 +11,8 @@ EXPLANATION = (
     "valid_ip_on_intf; (d) additionals only after the PTR answer was added; (e) lower-cased comparison of host and "
     "instance names; (f) legacy unicast: destination iff source port != 5353, questions echoed and cache-flush bits "
     "cleared before the send, unicast routing, and F15 — the query ID reaches write_header on a feasible path.  "
-    "Decides these necessary conditions, not set equality of answers over all query mixes.")
+    "Decides these necessary conditions, not set equality of answers over all query mixes."
+    " (g,h) The answer builders use rename-resolved names and the answering service is found by scanning my_services for resolve_name(key) == question name, never by the registered key.")
 UNDECIDED = ["'exactly the records that match each question' as a set equality over all query mixes",
              "subtype-question / answer-name relation", "interplay with known answers (C10)"]
 
